@@ -17,7 +17,7 @@ RATES = [[0, 0, 0], [0, 0, 1], [1, -2, 0]]
 OFFS = [[0, 0, 0, 0, 0, 0], [3, -1, 2, 0, 0, 0], [1, 2, -3, 4, 0, -1]]
 STATE = [7, -2, 3, 1, 5, -4]
 BUILTIN = ["EME2000", "MOD", "TOD", "TEME", "PEF", "ITRF", "TIRF", "CIRF", "GCRF", "G50"]
-EXTRA = ["Station", "LofN", "LofQ", "LofT", "Moon", "EML1", "EML4e"]
+EXTRA = ["Station", "LofN", "LofQ", "LofT", "LofS", "Moon", "EML1", "EML4e"]
 DATES = [[1973, 3, 2, 1, 2, 3], [1980, 1, 1, 0, 0, 0], [1992, 6, 30, 12, 0, 0], [2000, 1, 1, 12, 0, 0], [2004, 4, 6, 7, 51, 28],
          [2009, 1, 1, 0, 0, 30], [2016, 5, 4, 12, 30, 17], [2016, 12, 31, 23, 0, 0], [2017, 1, 20, 18, 0, 0], [1985, 7, 1, 6, 0, 0],
          [1999, 12, 31, 23, 58, 0], [2012, 7, 1, 0, 3, 0]]
